@@ -36,6 +36,7 @@ type variant struct {
 	instr   bool
 	wide    bool // statement yields also in every file under primitives/
 	strobe  bool // ... and in internal/strobe/strobe.go
+	curve   bool // ... and in curve/*.go (the group arithmetic)
 	godebug string
 	binOf   string // shares the binary of another variant
 }
@@ -50,6 +51,8 @@ var variants = map[string]*variant{
 	"instrw-race":       {name: "instrw-race", instr: true, wide: true, race: true},
 	"instrs":            {name: "instrs", instr: true, wide: true, strobe: true},
 	"instrs-purego":     {name: "instrs-purego", instr: true, wide: true, strobe: true, tags: "purego"},
+	"instrc":            {name: "instrc", instr: true, wide: true, strobe: true, curve: true},
+	"instrc-purego":     {name: "instrc-purego", instr: true, wide: true, strobe: true, curve: true, tags: "purego"},
 	"noavx2":            {name: "noavx2", godebug: "cpu.avx2=off", binOf: "plain"},
 	"purego":            {name: "purego", tags: "purego"},
 	"force32bit":        {name: "force32bit", tags: "force32bit"},
@@ -167,6 +170,7 @@ type builder struct {
 	sitesW   int
 	filesW   []string
 	overlayS string
+	overlayC string
 	overlayP string // sync-only overlay of the otherwise uninstrumented builds
 	mu       sync.Mutex
 	built    map[string]string
@@ -237,6 +241,18 @@ func (b *builder) ensureOverlayS() {
 	b.overlayS = filepath.Join(gen, "overlay.json")
 }
 
+func (b *builder) ensureOverlayC() {
+	if b.overlayC != "" {
+		return
+	}
+	gen := filepath.Join(b.dir, "genc")
+	os.RemoveAll(gen)
+	if _, err := instr.GenerateMode(repoDir, gen, 3); err != nil {
+		infra("instrumenter: %v", err)
+	}
+	b.overlayC = filepath.Join(gen, "overlay.json")
+}
+
 func (b *builder) ensureOverlay(wide bool) {
 	if wide {
 		if b.overlayW != "" {
@@ -295,7 +311,10 @@ func (b *builder) build(vn string) string {
 	}
 	if v.instr {
 		b.ensureOverlay(v.wide)
-		if v.strobe {
+		if v.curve {
+			b.ensureOverlayC()
+			args = append(args, "-overlay", b.overlayC)
+		} else if v.strobe {
 			b.ensureOverlayS()
 			args = append(args, "-overlay", b.overlayS)
 		} else if v.wide {
